@@ -1,0 +1,9 @@
+//go:build verif
+
+package validate
+
+// Contracts for the verification framework in /verif (comment-only file,
+// compiled only with -tags verif; see /verif/DESIGN.md).
+
+//@ func Validate()
+//@   ensures true
